@@ -39,6 +39,10 @@ fn main() -> ExitCode {
             }
         };
     }
+    if args[1] == "crashreport" {
+        // ritimc crashreport <ID> <tier> <journal dir>: which journalled history kills a fresh process?
+        return crashreport(&args[2].to_uppercase(), &args[3], &args[4]);
+    }
     let id = args[1].to_uppercase();
     let tier = args[2].as_str();
     if tier != "quick" && tier != "thorough" {
@@ -47,6 +51,7 @@ fn main() -> ExitCode {
     }
     let thorough = tier == "thorough";
     let report = report::Report::new(&id, tier);
+    spawn_watchdog(id.clone(), tier.to_string());
     let run: Option<fn(&report::Report, bool) -> report::Evidence> = props::lookup(&id);
     let Some(run) = run else {
         eprintln!("unknown property {}", id);
@@ -78,4 +83,66 @@ fn main() -> ExitCode {
             ExitCode::from(2)
         }
     }
+}
+
+/// A call into riti that has not returned after HANG_S seconds is a violation of C01's
+/// "no unbounded blow-up in time" wherever it happens; it is reported under the running check's id
+/// (the check cannot decide anything else either) and the process exits at once.
+fn spawn_watchdog(id: String, tier: String) {
+    std::thread::spawn(move || loop {
+        std::thread::sleep(std::time::Duration::from_millis(1000));
+        let reg: Vec<_> = drv::REGISTRY.lock().unwrap().iter().filter_map(|w| w.upgrade()).collect();
+        for j in reg {
+            let j = j.lock().unwrap();
+            if let Some(t) = j.started {
+                if t.elapsed().as_secs_f64() > drv::HANG_S {
+                    let dir = format!("{}/replays/{}", drv::VERIF, id);
+                    let _ = std::fs::create_dir_all(&dir);
+                    let path = format!("{}/{}-hang.json", dir, tier);
+                    let detail = format!("the last event of this history had not returned after {} s (unbounded time)", drv::HANG_S);
+                    let _ = std::fs::write(&path, serde_json::to_string_pretty(&j.to_json(&id, "hang", &detail)).unwrap());
+                    write_abort_evidence(&id, &tier, &detail);
+                    println!("VIOLATION property={} replay={}", id, path);
+                    println!("  kind=hang history=[{}] origin={:?} {}", drv::hist_short(&j.since), j.origin, detail);
+                    std::process::exit(1);
+                }
+            }
+        }
+    });
+}
+
+fn write_abort_evidence(id: &str, tier: &str, detail: &str) {
+    let seed: i64 = std::env::var("VERIF_SEED").ok().and_then(|s| s.parse().ok()).unwrap_or(0);
+    let j = serde_json::json!({
+        "property_id": id, "tier": tier, "seed": seed, "level": "other",
+        "coverage": {"explanation": format!("exploration stopped at its first fatal event: {}", detail), "exhaustive": false},
+        "assumptions": [], "wall_s": 0.0, "violations": 1
+    });
+    let _ = std::fs::create_dir_all(format!("{}/evidence", drv::VERIF));
+    let _ = std::fs::write(format!("{}/evidence/{}.json", drv::VERIF, id), serde_json::to_string_pretty(&j).unwrap() + "\n");
+}
+
+fn crashreport(id: &str, tier: &str, dir: &str) -> ExitCode {
+    let exe = std::env::current_exe().expect("exe");
+    let mut files: Vec<_> = std::fs::read_dir(dir).map(|rd| rd.flatten().map(|e| e.path()).collect()).unwrap_or_default();
+    files.sort();
+    for f in files {
+        let st = std::process::Command::new(&exe).arg("replay").arg(&f).stdout(std::process::Stdio::null()).stderr(std::process::Stdio::null()).status();
+        let died = match st {
+            Ok(s) => !s.success() && s.code().map(|c| c > 2).unwrap_or(true),
+            Err(_) => false,
+        };
+        if died {
+            let rdir = format!("{}/replays/{}", drv::VERIF, id);
+            let _ = std::fs::create_dir_all(&rdir);
+            let path = format!("{}/{}-abort.json", rdir, tier);
+            let _ = std::fs::copy(&f, &path);
+            write_abort_evidence(id, tier, "a call killed the process (abort / stack overflow); the journalled history reproduces it in a fresh process");
+            println!("VIOLATION property={} replay={}", id, path);
+            println!("  kind=abort the journalled history kills a fresh process when replayed (see the replay file)");
+            return ExitCode::from(1);
+        }
+    }
+    eprintln!("MACHINERY ERROR: the run died abnormally but no journalled history reproduces it; no verdict");
+    ExitCode::from(2)
 }
